@@ -4,6 +4,9 @@
   the three kinds, explicit del, collections) executed on `Cello.Heap` (`gcMark`, `sweep`).
   Objects are named by small integers; the model gives object `i` the synthetic address `addrOf i` (the marker only
   depends on alignment, the pointer bounds, and which words are registered addresses).
+  An exact-mode collection is `gcMarkFrom` (from the mark bits an `xraise` left, unless `GC_Mark` clears them first:
+  `CelloGen.GcMark.markClearsFirst`) + `sweep` + `release`; `xraise` is `GOp.raise` (a prefix of `markEvents`); `xbox` builds a Box
+  outside its ownership contract; `newraw` an unregistered container.
 -/
 import Cello.Heap
 import Cello.HeapRec
